@@ -2,6 +2,7 @@ import Morlock.Driver.Engine
 import Morlock.Driver.Search
 import Morlock.Model.UciSeq
 import Morlock.Model.UciConc
+import Morlock.Model.UciPos
 namespace Morlock.Driver
 open Morlock Morlock.Model
 
@@ -45,28 +46,21 @@ def denote (line : String) : Option SBoard :=
           some ⟨g', sb.res ++ [tok]⟩) ⟨{ start := sg }, ["-"]⟩
   | _ => none
 
+/-- The concrete engine as an `UciPos.Eng`: the engine proper plus the transposition table `Reset` installs
+    (`hashMB` = the `Hash` option at the time of the command). -/
+def engOf (z : ZTable) (hashMB : Nat) : Model.UciPos.Eng (EngineM × TTState) where
+  reset fen :=
+    let (e', ok) := EngineM.reset z default fen
+    if ok then some (e', if hashMB > 0 then TTState.new (hashMB * 1048576) else {}) else none
+  move s arg :=
+    let (e', ok) := s.1.move z arg
+    if ok then some (e', s.2) else none
+
+/-- The `position` handler: `Model.UciPos.position` (the function the C10 theorems are about) on the
+    concrete engine. -/
 def uciPosition (z : ZTable) (u : UciM) (line : String) : UciM :=
-  let parts := (trimSp line).splitOn " "
-  let args := parts.drop 1
-  let playAll (u : UciM) (ms : List String) : UciM × Bool :=
-    ms.foldl (fun (acc : UciM × Bool) arg =>
-      if !acc.2 || arg = "moves" then acc else
-        let (e', ok) := acc.1.eng.move z arg.toList
-        ({ acc.1 with eng := e' }, ok)) (u, true)
-  let fresh (u : UciM) : UciM :=
-    let position := if args.length ≥ 7 && args.head? = some "fen" then joinSp ((args.drop 1).take 6)
-      else "rnbqkbnr/pppppppp/8/8/8/8/PPPPPPPP/RNBQKBNR w KQkq - 0 1"
-    let (e', ok) := u.eng.reset z position.toList
-    if !ok then { u with lastPosition := "" } else
-      let u := { u with eng := e', tt := if u.hashMB > 0 then TTState.new (u.hashMB * 1048576) else {} }
-      let mvs := (args.dropWhile (· ≠ "moves")).drop 1
-      let (u', ok) := playAll u (mvs.filter (· ≠ "moves"))
-      { u' with lastPosition := if ok then line else "" }
-  match continuation u.lastPosition line with
-  | some rest =>
-    let (u', ok) := playAll u rest
-    if ok then { u' with lastPosition := line } else fresh u'   -- not an extension after all: set up from scratch
-  | none => fresh u
+  let r := Model.UciPos.position (engOf z u.hashMB) ((u.eng, u.tt), u.lastPosition.toList) line.toList
+  { u with eng := r.1.1, tt := r.1.2, lastPosition := String.ofList r.2 }
 
 /-- `go depth N` on the deterministic configuration: iterative deepening 1..N sharing the table;
     stops early once a forced mate within the searched depth is found. Returns the best move text. -/
